@@ -20,8 +20,8 @@ func genC14(seed uint64, tier string, idx int) *Plan {
 	v19 := g.r.chance(50)
 	ci := g.addConn("service", v19, g.phone(v19))
 	maxN := 24
-	if tier == "thorough" && g.r.chance(15) {
-		maxN = 255
+	if (tier == "thorough" && g.r.chance(15)) || g.r.chance(2) {
+		maxN = 255 // long transfers: re-requests that list more than 127 numbers
 	}
 	a := &Actor{Name: "c0", Conn: ci, Ops: []Op{{K: "dial"}}}
 	var frames []SentFrame
@@ -76,11 +76,15 @@ func genC14(seed uint64, tier string, idx int) *Plan {
 	for x := 0; x < nx; x++ {
 		id := ids[x]
 		total := 2 + g.r.intn(maxN-1)
+		missPct := 35
+		if maxN == 255 && g.r.chance(50) {
+			total, missPct = 180+g.r.intn(76), 80 // most of a long transfer missing: a re-request with 128+ numbers
+		}
 		fr, tr := g.transferFrames(ci, id, total, 0, false)
 		// choose a non-empty missing set among 2..N
 		var missing []int
 		for no := 2; no <= total; no++ {
-			if g.r.chance(35) {
+			if g.r.chance(missPct) {
 				missing = append(missing, no)
 			}
 		}
